@@ -27,6 +27,13 @@ theorem payOk_of {σ} (pay : Pay σ) (B : UInt16) (Inv : σ → Bytes → Prop) 
     exact ⟨hInv _ _ hi (hd f (by simp)),
       ih _ (hstep _ _ hi (hd f (by simp))) (fun g hg => hd g (by simp [hg]))⟩
 
+theorem framesNonEmpty_iff (fs : List FrameIn) (h : framesNonEmpty fs = true) : ∀ f ∈ fs, f.frame ≠ [] := by
+  intro f hf
+  have := (List.all_eq_true.mp h) f hf
+  intro he; simp [he] at this
+
+theorem vp8State_eq (enable : Bool) (k : Nat) : vp8State enable k = Rtp.Proofs.VP8.payState enable k := rfl
+
 theorem isEmpty_false_of_ne {l : Bytes} (h : l ≠ []) : l.isEmpty = false := by
   cases l with
   | nil => exact absurd rfl h
@@ -137,9 +144,6 @@ theorem vp8_next (enable : Bool) (B : UInt16) (k : Nat) (frame : Bytes)
   show (vp8Payload (payState enable k) B (some frame)).2 = _
   rw [payload_proper enable k B frame hm hne]
 
-/-- the longest descriptor the payloader writes: 1 octet without picture ids, 4 with -/
-def vp8MaxHdr (enable : Bool) : Nat := if enable then 4 else 1
-
 theorem vp8_hdrLen_le (enable : Bool) (k : Nat) : Rtp.Pred.C11.hdrLen enable k ≤ vp8MaxHdr enable := by
   simp only [Rtp.Pred.C11.hdrLen, vp8MaxHdr]
   cases enable <;> simp <;> split <;> omega
@@ -158,9 +162,6 @@ theorem vp8_payOk (enable : Bool) (B : UInt16) (hB : vp8MaxHdr enable < B.toNat)
     exact ⟨k + 1, vp8_next enable B k fr (Nat.lt_of_le_of_lt (vp8_hdrLen_le enable k) hB) hd⟩
 
 /-! ### VP9, flexible mode -/
-
-/-- the 15-bit picture id the payloader uses for its next frame -/
-def vp9Pid (st : VP9Pay) : UInt16 := if st.initialized then st.pictureID else st.init &&& 0x7FFF
 
 open Rtp.Proofs.VP9 in
 /-- domain: flexible mode, the payloader is new or has a picture id below 2^15, the frame is
@@ -251,45 +252,13 @@ theorem vp9_next (B : UInt16) (st : VP9Pay) (frame : Bytes) (hflex : st.flexible
 
 /-! ### H264 -/
 
-open Rtp.Model.H264 Rtp.Model.H264.Obs Rtp.Spec.Rfc6184 Rtp.Pred in
-/-- one access unit handed to `Packetize`: NAL units behind 3- or 4-byte start codes, or one bare
-    unit; with the sample count and clock reading of the call -/
-structure H264Frame where
-  bare : Bool := false
-  units : List (Bool × Bytes)
-  samples : UInt32 := 0
-  now : Int64 := 0
-  deriving DecidableEq, Repr
-
-namespace H264Frame
-open Rtp.Pred
-
-/-- the call of C10 that hands this frame to a payloader with MTU `B` -/
-def call (B : UInt16) (fr : H264Frame) : C10.RtCall := { mtu := B, bare := fr.bare, units := fr.units }
-
-/-- the bytes handed to `Packetize` -/
-def buffer (fr : H264Frame) : Bytes := (fr.call 0).buffer
-
-def frameIn (fr : H264Frame) : FrameIn := { frame := fr.buffer, samples := fr.samples, now := fr.now }
-
-/-- C10's hypotheses on one frame (units of type 1–23, ≥ 2 bytes, F = 0, no start code inside, no
-    trailing zero; a bare buffer is exactly one unit) and at least one unit -/
-def WF (fr : H264Frame) : Prop :=
-  fr.units ≠ [] ∧ (fr.bare = true → fr.units.length = 1) ∧ ∀ u ∈ fr.units, Spec.Rfc6184.nalWF u.2 = true
-
-/-- the same, executable (for the driver and the examples) -/
-def wf (fr : H264Frame) : Bool :=
-  !fr.units.isEmpty && (!fr.bare || fr.units.length == 1) && fr.units.all (fun u => Spec.Rfc6184.nalWF u.2)
-
-theorem WF_of_wf (fr : H264Frame) (h : fr.wf = true) : fr.WF := by
-  simp only [wf, Bool.and_eq_true, Bool.or_eq_true, Bool.not_eq_true', beq_iff_eq, List.all_eq_true] at h
+theorem H264Frame.WF_of_wf (fr : H264Frame) (h : fr.wf = true) : fr.WF := by
+  simp only [H264Frame.wf, Bool.and_eq_true, Bool.or_eq_true, Bool.not_eq_true', beq_iff_eq, List.all_eq_true] at h
   refine ⟨?_, ?_, h.2⟩
   · intro he; simp [he] at h
   · intro hb; rcases h.1.2 with h' | h'
     · rw [hb] at h'; cases h'
     · exact h'
-
-end H264Frame
 
 open Rtp.Model.H264 Rtp.Spec.Rfc6184 Rtp.Pred in
 theorem h264_buffer_ne (fr : H264Frame) (hw : fr.WF) : fr.buffer ≠ [] := by
